@@ -1,5 +1,5 @@
 #!/bin/bash
-# usage: tools/refactortest.sh <name>   -- applies /verif/refactors/<name>/patch.diff (a behaviour-preserving
+# usage: tools/refactortest.sh <name> [check ids...]   -- applies /verif/refactors/<name>/patch.diff (a behaviour-preserving
 # change) to /repo, runs every quick check, restores /repo and the evidence files.  Every check must stay silent.
 set -u
 R=/verif/refactors/$1
@@ -8,4 +8,14 @@ if ! git diff --quiet; then echo "/repo has uncommitted changes"; exit 2; fi
 git apply "$R/patch.diff" || { echo "patch does not apply"; exit 2; }
 rm -rf /verif/work/evidence_backup && cp -r /verif/evidence /verif/work/evidence_backup
 trap 'git -C /repo checkout -- . ; git -C /repo clean -fdq src; rm -rf /verif/evidence && mv /verif/work/evidence_backup /verif/evidence' EXIT
-/verif/tools/runall.sh quick 2>&1 | tee /verif/work/refactor_$1.log
+N=$1; shift
+if [ $# -eq 0 ]; then
+  /verif/tools/runall.sh quick 2>&1 | tee /verif/work/refactor_$N.log
+else
+  cd /verif
+  for p in "$@"; do
+    s=$(date +%s); out=$(./check $p --tier quick 2>&1); rc=$?; e=$(( $(date +%s) - s ))
+    echo "$p rc=$rc ${e}s $(echo "$out" | grep -c '^VIOLATION') violations; $(echo "$out" | tail -1 | cut -c1-160)"
+    [ $rc -ne 0 ] && echo "$out" | grep -E "VIOLATION|TOOL-ERROR" -A2 | head -12
+  done 2>&1 | tee /verif/work/refactor_${N}_sel.log
+fi
